@@ -30,7 +30,7 @@ pub fn template_total(args: &[String]) -> String {
         }
     }
     // small-scope enumeration over the grammar's alphabet
-    let alpha: Vec<char> = "{}: a9!./\n<".chars().collect();
+    let alpha: Vec<char> = "{}: a9!./\n<\u{3000}\u{e9}".chars().collect();
     let mut tried = 0u64;
     for len in 0..=5usize {
         let mut idx = vec![0usize; len];
